@@ -25,6 +25,21 @@ package uniprot
 // further comment kinds, positions with a status, citations, precursor and
 // fragment attributes (part 8 of TestVerifC20; one class per kind).
 //
+// ENUMERATED attribute values (part 9, c20Enums). uniprot.xsd restricts many
+// attributes to an enumeration: the dataset of an entry (Swiss-Prot, TrEMBL),
+// the type of a proteinExistence, gene name, organism name, geneLocation,
+// citation, comment, conflict, event, isoform sequence and feature element,
+// the resource of a conflict sequence, the direction of a physiological
+// reaction, the status of a position, the fragment attribute of the sequence;
+// precursor and organismsDiffer are xs:boolean (true, false, 1, 0). A document
+// is well formed and valid whichever of these values its entries carry, so
+// every entry must be delivered with its accessions, names and sequence text.
+// The part goes through EVERY value of every one of these enumerations (and
+// through the evidence codes and reference scopes UniProt writes, which the
+// schema leaves open), one document per value with one entry carrying it, plus
+// documents in which every entry is a TrEMBL one, and documents in which the
+// datasets alternate and every entry carries a value drawn at random.
+//
 // Every call of Parse/Read happens in a child process (this test binary
 // re-executed with -test.run=^TestVerifC20Child$) under an address-space limit
 // and a per-case deadline, because a parser that spins or blocks cannot be
@@ -140,7 +155,11 @@ func c20Build(rng *rand.Rand, ents []c20Ent, rich bool) c20Doc {
 			if e.num != nil && e.num.Modified != "" {
 				modified = e.num.Modified
 			}
-			b.WriteString("<entry dataset=\"Swiss-Prot\" created=\"" + created + "\" modified=\"" + modified + "\" version=\"" + strconv.Itoa(version) + "\"")
+			dataset := "Swiss-Prot"
+			if e.ann != nil && e.ann.dataset != "" {
+				dataset = e.ann.dataset
+			}
+			b.WriteString("<entry dataset=\"" + dataset + "\" created=\"" + created + "\" modified=\"" + modified + "\" version=\"" + strconv.Itoa(version) + "\"")
 			if rng.Intn(2) == 0 {
 				b.WriteString(" xmlns=\"http://uniprot.org/uniprot\"")
 			}
@@ -165,7 +184,12 @@ func c20Build(rng *rand.Rand, ents []c20Ent, rich bool) c20Doc {
 			if rng.Intn(2) == 0 {
 				b.WriteString("  <gene>\n    <name type=\"primary\">" + c20Word(rng, c20AlNum, 3, 6) + "</name>\n  </gene>\n")
 			}
-			if rng.Intn(2) == 0 {
+			if e.ann != nil {
+				b.WriteString(e.ann.early)
+			}
+			if e.ann != nil && e.ann.organism != "" {
+				b.WriteString(e.ann.organism)
+			} else if rng.Intn(2) == 0 {
 				b.WriteString("  <organism>\n    <name type=\"scientific\">" + c20Word(rng, c20AlNum[:26], 4, 9) + " virus</name>\n    <dbReference type=\"NCBI Taxonomy\" id=\"" + strconv.Itoa(rng.Intn(99999)) + "\"/>\n  </organism>\n")
 			}
 			if e.ann != nil {
@@ -228,6 +252,9 @@ type c20Annot struct {
 	pre      string // reference, comment, dbReference, proteinExistence elements
 	post     string // keyword, feature, evidence elements
 	seqAttrs string // further attributes of the entry's sequence element
+	dataset  string // value of the entry's dataset attribute ("": Swiss-Prot)
+	early    string // gene elements (they come before the organism)
+	organism string // the organism element ("": as the layout draws it)
 }
 
 // c20ListForms: lexical forms of an xs:list of integers (the evidence
@@ -404,6 +431,178 @@ var c20AnnKinds = []struct {
 		at := []string{" precursor=\"true\"", " fragment=\"single\"", " precursor=\"true\" fragment=\"multiple\"", " precursor=\"false\""}[v]
 		return "<sequence ..." + at + "> on the entry's sequence element", c20Annot{seqAttrs: at}
 	}},
+}
+
+// ------------------------------------------------- enumerated attribute values
+
+// c20Enums: the attributes that uniprot.xsd restricts to an enumeration (and
+// the two xs:boolean ones, and two open vocabularies: evidence codes and
+// reference scopes), each with ALL its values and a layout of the element that
+// carries the attribute, the way the distributed dump has it.
+var c20Enums = []struct {
+	shape, attr string
+	schema      bool // enumerated (or boolean) in the schema; false: open vocabulary, the values UniProt writes
+	values      []string
+	gen         func(rng *rand.Rand, v string, seqLen int) c20Annot
+}{
+	{"enumerated-dataset-value", "dataset of <entry>", true, []string{"Swiss-Prot", "TrEMBL"},
+		func(rng *rand.Rand, v string, n int) c20Annot { return c20Annot{dataset: v} }},
+	{"enumerated-protein-existence-value", "type of <proteinExistence>", true,
+		[]string{"evidence at protein level", "evidence at transcript level", "inferred from homology", "predicted", "uncertain"},
+		func(rng *rand.Rand, v string, n int) c20Annot {
+			return c20Annot{pre: "  <proteinExistence type=\"" + v + "\"/>\n"}
+		}},
+	{"enumerated-gene-name-type-value", "type of <gene><name>", true, []string{"primary", "synonym", "ordered locus", "ORF"},
+		func(rng *rand.Rand, v string, n int) c20Annot {
+			s := "  <gene>\n"
+			if v != "primary" {
+				s += "    <name type=\"primary\">" + c20Word(rng, c20AlNum, 3, 6) + "</name>\n"
+			}
+			return c20Annot{early: s + "    <name type=\"" + v + "\">" + c20Word(rng, c20AlNum, 3, 8) + "</name>\n  </gene>\n"}
+		}},
+	{"enumerated-organism-name-type-value", "type of <organism><name>", true, []string{"common", "full", "scientific", "synonym", "abbreviation"},
+		func(rng *rand.Rand, v string, n int) c20Annot {
+			s := "  <organism>\n"
+			if v != "scientific" {
+				s += "    <name type=\"scientific\">" + c20Word(rng, c20AlNum[:26], 4, 9) + " virus</name>\n"
+			}
+			return c20Annot{organism: s + "    <name type=\"" + v + "\">" + c20Word(rng, c20AlNum[:26], 3, 9) + "</name>\n    <dbReference type=\"NCBI Taxonomy\" id=\"" + strconv.Itoa(1+rng.Intn(99999)) + "\"/>\n    <lineage>\n      <taxon>Viruses</taxon>\n      <taxon>Varidnaviria</taxon>\n    </lineage>\n  </organism>\n"}
+		}},
+	{"enumerated-gene-location-type-value", "type of <geneLocation>", true,
+		[]string{"apicoplast", "chloroplast", "organellar chromatophore", "cyanelle", "hydrogenosome", "mitochondrion", "non-photosynthetic plastid", "nucleomorph", "plasmid", "plastid"},
+		func(rng *rand.Rand, v string, n int) c20Annot {
+			if v == "plasmid" { // a plasmid is named: a nested <name> that is not the entry's
+				return c20Annot{pre: "  <geneLocation type=\"plasmid\">\n    <name>p" + c20Word(rng, c20AlNum, 2, 6) + "</name>\n  </geneLocation>\n"}
+			}
+			return c20Annot{pre: "  <geneLocation type=\"" + v + "\"/>\n"}
+		}},
+	{"enumerated-citation-type-value", "type of <citation>", true,
+		[]string{"book", "journal article", "online journal article", "patent", "submission", "thesis", "unpublished observations"},
+		func(rng *rand.Rand, v string, n int) c20Annot {
+			at, body := "", "      <authorList>\n        <person name=\"Smith J.\"/>\n      </authorList>\n"
+			switch v {
+			case "book":
+				at, body = " date=\"1994\" name=\"The "+c20Word(rng, c20AlNum[:26], 4, 9)+" handbook\" first=\"11\" last=\"27\" publisher=\"Academic Press\" city=\"New York\"", "      <title>Chapter two.</title>\n      <editorList>\n        <person name=\"Jones A.\"/>\n      </editorList>\n"+body
+			case "journal article":
+				at, body = " date=\"2004\" name=\"Virology\" volume=\"319\" first=\"337\" last=\"342\"", "      <title>Analysis of "+c20Word(rng, c20AlNum[:26], 4, 9)+".</title>\n"+body+"      <dbReference type=\"PubMed\" id=\"14980493\"/>\n"
+			case "online journal article":
+				at, body = " date=\"1999\" name=\"Plant Gene Register\" volume=\"PGR99-004\"", "      <title>An online note.</title>\n"+body+"      <locator>https://example.org/pgr99-004</locator>\n"
+			case "patent":
+				at = " date=\"1990-09-20\" number=\"WO9010703\""
+			case "submission":
+				at = " date=\"2003-12\" db=\"EMBL/GenBank/DDBJ databases\""
+			case "thesis":
+				at, body = " date=\"1977\" institute=\"University of Geneva\" country=\"Switzerland\"", "      <title>A thesis.</title>\n"+body
+			}
+			return c20Annot{pre: "  <reference key=\"1\">\n    <citation type=\"" + v + "\"" + at + ">\n" + body + "    </citation>\n    <scope>NUCLEOTIDE SEQUENCE [GENOMIC DNA]</scope>\n  </reference>\n"}
+		}},
+	{"enumerated-comment-type-value", "type of <comment>", true,
+		[]string{"allergen", "alternative products", "biotechnology", "biophysicochemical properties", "catalytic activity", "caution", "cofactor", "developmental stage", "disease", "domain", "disruption phenotype", "activity regulation", "function", "induction", "miscellaneous", "pathway", "pharmaceutical", "polymorphism", "PTM", "RNA editing", "similarity", "subcellular location", "sequence caution", "subunit", "tissue specificity", "toxic dose", "online information", "mass spectrometry", "interaction"},
+		func(rng *rand.Rand, v string, n int) c20Annot {
+			switch v {
+			case "alternative products":
+				return c20Annot{pre: "  <comment type=\"alternative products\">\n    <event type=\"alternative splicing\"/>\n    <isoform>\n      <id>P" + c20Word(rng, "0123456789", 5, 5) + "-1</id>\n      <name>1</name>\n      <sequence type=\"displayed\"/>\n    </isoform>\n  </comment>\n"}
+			case "biophysicochemical properties":
+				return c20Annot{pre: "  <comment type=\"biophysicochemical properties\">\n    <phDependence>\n      <text>Optimum pH is 7.5.</text>\n    </phDependence>\n  </comment>\n"}
+			case "catalytic activity":
+				return c20Annot{pre: "  <comment type=\"catalytic activity\">\n    <reaction>\n      <text>ATP + H2O = ADP + phosphate + H(+)</text>\n      <dbReference type=\"EC\" id=\"3.6.4.13\"/>\n    </reaction>\n  </comment>\n"}
+			case "cofactor":
+				return c20Annot{pre: "  <comment type=\"cofactor\">\n    <cofactor>\n      <name>Mg(2+)</name>\n      <dbReference type=\"ChEBI\" id=\"CHEBI:18420\"/>\n    </cofactor>\n  </comment>\n"}
+			case "disease":
+				return c20Annot{pre: "  <comment type=\"disease\">\n    <disease id=\"DI-0" + c20Word(rng, "0123456789", 4, 4) + "\">\n      <name>" + c20Word(rng, c20AlNum[:26], 4, 9) + " syndrome</name>\n      <acronym>" + c20Word(rng, c20AlNum[:26], 3, 4) + "</acronym>\n      <description>A disorder.</description>\n      <dbReference type=\"MIM\" id=\"" + c20Word(rng, "123456789", 6, 6) + "\"/>\n    </disease>\n  </comment>\n"}
+			case "RNA editing":
+				return c20Annot{pre: "  <comment type=\"RNA editing\" locationType=\"Undetermined\">\n    <location>\n      <position position=\"" + strconv.Itoa(1+rng.Intn(n)) + "\"/>\n    </location>\n    <text>Partially edited.</text>\n  </comment>\n"}
+			case "subcellular location":
+				return c20Annot{pre: "  <comment type=\"subcellular location\">\n    <subcellularLocation>\n      <location>Host nucleus</location>\n    </subcellularLocation>\n  </comment>\n"}
+			case "sequence caution":
+				return c20Annot{pre: "  <comment type=\"sequence caution\">\n    <conflict type=\"frameshift\">\n      <sequence resource=\"EMBL-CDS\" id=\"AAB" + c20Word(rng, "0123456789", 5, 5) + "\" version=\"1\"/>\n    </conflict>\n  </comment>\n"}
+			case "online information":
+				return c20Annot{pre: "  <comment type=\"online information\" name=\"Wikipedia\">\n    <link uri=\"https://en.wikipedia.org/wiki/Protein\"/>\n  </comment>\n"}
+			case "mass spectrometry":
+				return c20Annot{pre: "  <comment type=\"mass spectrometry\" mass=\"5766.4\" method=\"MALDI\">\n    <location>\n      <begin position=\"1\"/>\n      <end position=\"" + strconv.Itoa(n) + "\"/>\n    </location>\n  </comment>\n"}
+			case "interaction":
+				return c20Annot{pre: "  <comment type=\"interaction\">\n    <interactant intactId=\"EBI-" + c20Word(rng, "123456789", 5, 7) + "\"/>\n    <interactant intactId=\"EBI-" + c20Word(rng, "123456789", 5, 7) + "\">\n      <id>Q" + c20Word(rng, c20AlNum, 5, 5) + "</id>\n    </interactant>\n    <organismsDiffer>false</organismsDiffer>\n    <experiments>3</experiments>\n  </comment>\n"}
+			}
+			return c20Annot{pre: "  <comment type=\"" + v + "\">\n    <text>About " + c20Word(rng, c20AlNum[:26], 4, 9) + ".</text>\n  </comment>\n"}
+		}},
+	{"enumerated-conflict-type-value", "type of <conflict> in a sequence caution comment", true,
+		[]string{"frameshift", "erroneous initiation", "erroneous termination", "erroneous gene model prediction", "erroneous translation", "miscellaneous discrepancy"},
+		func(rng *rand.Rand, v string, n int) c20Annot {
+			return c20Annot{pre: "  <comment type=\"sequence caution\">\n    <conflict type=\"" + v + "\">\n      <sequence resource=\"EMBL-CDS\" id=\"AAB" + c20Word(rng, "0123456789", 5, 5) + "\" version=\"1\"/>\n    </conflict>\n  </comment>\n"}
+		}},
+	{"enumerated-sequence-resource-value", "resource of <conflict><sequence>", true, []string{"EMBL-CDS", "EMBL"},
+		func(rng *rand.Rand, v string, n int) c20Annot {
+			return c20Annot{pre: "  <comment type=\"sequence caution\">\n    <conflict type=\"erroneous initiation\">\n      <sequence resource=\"" + v + "\" id=\"AAB" + c20Word(rng, "0123456789", 5, 5) + "\" version=\"2\"/>\n    </conflict>\n    <text>Extended N-terminus.</text>\n  </comment>\n"}
+		}},
+	{"enumerated-event-type-value", "type of <event> in an alternative products comment", true,
+		[]string{"alternative splicing", "alternative initiation", "alternative promoter", "ribosomal frameshifting"},
+		func(rng *rand.Rand, v string, n int) c20Annot {
+			return c20Annot{pre: "  <comment type=\"alternative products\">\n    <event type=\"" + v + "\"/>\n    <isoform>\n      <id>P" + c20Word(rng, "0123456789", 5, 5) + "-1</id>\n      <name>Long</name>\n      <sequence type=\"displayed\"/>\n    </isoform>\n  </comment>\n"}
+		}},
+	{"enumerated-isoform-sequence-type-value", "type of <isoform><sequence>", true, []string{"not described", "described", "displayed", "external"},
+		func(rng *rand.Rand, v string, n int) c20Annot {
+			ref := ""
+			if v == "described" {
+				ref = " ref=\"VSP_0" + c20Word(rng, "0123456789", 5, 5) + "\""
+			}
+			return c20Annot{pre: "  <comment type=\"alternative products\">\n    <event type=\"alternative splicing\"/>\n    <isoform>\n      <id>P" + c20Word(rng, "0123456789", 5, 5) + "-2</id>\n      <name>2</name>\n      <sequence type=\"" + v + "\"" + ref + "/>\n    </isoform>\n  </comment>\n"}
+		}},
+	{"enumerated-reaction-direction-value", "direction of <physiologicalReaction>", true, []string{"left-to-right", "right-to-left"},
+		func(rng *rand.Rand, v string, n int) c20Annot {
+			return c20Annot{pre: "  <comment type=\"catalytic activity\">\n    <reaction>\n      <text>ATP + H2O = ADP + phosphate + H(+)</text>\n      <dbReference type=\"Rhea\" id=\"RHEA:13065\"/>\n    </reaction>\n    <physiologicalReaction direction=\"" + v + "\">\n      <dbReference type=\"Rhea\" id=\"RHEA:13066\"/>\n    </physiologicalReaction>\n  </comment>\n"}
+		}},
+	{"enumerated-feature-type-value", "type of <feature>", true,
+		[]string{"active site", "binding site", "calcium-binding region", "chain", "coiled-coil region", "compositionally biased region", "cross-link", "disulfide bond", "DNA-binding region", "domain", "glycosylation site", "helix", "initiator methionine", "lipid moiety-binding region", "metal ion-binding site", "modified residue", "mutagenesis site", "non-consecutive residues", "non-terminal residue", "nucleotide phosphate-binding region", "peptide", "propeptide", "region of interest", "repeat", "non-standard amino acid", "sequence conflict", "sequence variant", "short sequence motif", "signal peptide", "site", "splice variant", "strand", "topological domain", "transit peptide", "transmembrane region", "turn", "unsure residue", "zinc finger region", "intramembrane region"},
+		func(rng *rand.Rand, v string, n int) c20Annot {
+			loc := "    <location>\n      <begin position=\"1\"/>\n      <end position=\"" + strconv.Itoa(n) + "\"/>\n    </location>\n"
+			if strings.HasSuffix(v, "site") || strings.HasSuffix(v, "residue") || strings.HasSuffix(v, "acid") || v == "initiator methionine" || v == "sequence variant" {
+				loc = "    <location>\n      <position position=\"" + strconv.Itoa(1+rng.Intn(n)) + "\"/>\n    </location>\n"
+			}
+			inner := ""
+			if v == "sequence variant" || v == "mutagenesis site" || v == "sequence conflict" || v == "splice variant" {
+				inner = "    <original>A</original>\n    <variation>T</variation>\n"
+			}
+			return c20Annot{post: "  <feature type=\"" + v + "\" description=\"" + c20Word(rng, c20AlNum[:26], 4, 9) + "\">\n" + inner + loc + "  </feature>\n"}
+		}},
+	{"enumerated-position-status-value", "status of a feature's <begin>", true, []string{"certain", "uncertain", "less than", "greater than", "unknown"},
+		func(rng *rand.Rand, v string, n int) c20Annot {
+			begin := "<begin position=\"1\" status=\"" + v + "\"/>"
+			if v == "unknown" {
+				begin = "<begin status=\"unknown\"/>"
+			}
+			return c20Annot{post: "  <feature type=\"chain\" id=\"PRO_" + c20Word(rng, "0123456789", 10, 10) + "\" description=\"Protein " + c20Word(rng, c20AlNum, 3, 8) + "\">\n    <location>\n      " + begin + "\n      <end position=\"" + strconv.Itoa(n) + "\"/>\n    </location>\n  </feature>\n"}
+		}},
+	{"enumerated-fragment-value", "fragment of the entry's <sequence>", true, []string{"single", "multiple"},
+		func(rng *rand.Rand, v string, n int) c20Annot { return c20Annot{seqAttrs: " fragment=\"" + v + "\""} }},
+	{"boolean-precursor-value", "precursor (xs:boolean) of the entry's <sequence>", true, []string{"true", "false", "1", "0"},
+		func(rng *rand.Rand, v string, n int) c20Annot { return c20Annot{seqAttrs: " precursor=\"" + v + "\""} }},
+	{"boolean-organisms-differ-value", "text of <organismsDiffer> (xs:boolean) in an interaction comment", true, []string{"true", "false", "1", "0"},
+		func(rng *rand.Rand, v string, n int) c20Annot {
+			return c20Annot{pre: "  <comment type=\"interaction\">\n    <interactant intactId=\"EBI-" + c20Word(rng, "123456789", 5, 7) + "\"/>\n    <interactant intactId=\"EBI-" + c20Word(rng, "123456789", 5, 7) + "\">\n      <id>Q" + c20Word(rng, c20AlNum, 5, 5) + "</id>\n      <label>" + c20Word(rng, c20AlNum[:26], 3, 6) + "</label>\n    </interactant>\n    <organismsDiffer>" + v + "</organismsDiffer>\n    <experiments>4</experiments>\n  </comment>\n"}
+		}},
+	{"evidence-code-value", "type of <evidence> (an ECO code; open in the schema)", false,
+		[]string{"ECO:0000269", "ECO:0000303", "ECO:0000305", "ECO:0000250", "ECO:0000255", "ECO:0000256", "ECO:0000259", "ECO:0000312", "ECO:0000313", "ECO:0000244", "ECO:0000213", "ECO:0000247", "ECO:0000314", "ECO:0007744", "ECO:0007829", "ECO:0007005"},
+		func(rng *rand.Rand, v string, n int) c20Annot {
+			return c20Annot{post: "  <keyword id=\"KW-0244\" evidence=\"1\">Early protein</keyword>\n  <evidence type=\"" + v + "\" key=\"1\">\n    <source>\n      <dbReference type=\"PubMed\" id=\"" + c20Word(rng, "123456789", 8, 8) + "\"/>\n    </source>\n  </evidence>\n"}
+		}},
+	{"reference-scope-value", "text of <reference><scope> (open in the schema)", false,
+		[]string{"NUCLEOTIDE SEQUENCE [GENOMIC DNA]", "NUCLEOTIDE SEQUENCE [MRNA]", "NUCLEOTIDE SEQUENCE [LARGE SCALE GENOMIC DNA]", "NUCLEOTIDE SEQUENCE [LARGE SCALE MRNA] (ISOFORMS 1 AND 2)", "PROTEIN SEQUENCE OF 1-12", "X-RAY CRYSTALLOGRAPHY (2.0 ANGSTROMS) OF 24-260", "STRUCTURE BY NMR", "FUNCTION", "SUBCELLULAR LOCATION", "TISSUE SPECIFICITY", "INTERACTION WITH TP53", "VARIANT THR-5", "MUTAGENESIS OF LYS-7", "IDENTIFICATION BY MASS SPECTROMETRY [LARGE SCALE ANALYSIS]", "PHOSPHORYLATION [LARGE SCALE ANALYSIS] AT SER-3", "REVIEW"},
+		func(rng *rand.Rand, v string, n int) c20Annot {
+			return c20Annot{pre: "  <reference key=\"1\">\n    <citation type=\"journal article\" date=\"2004\" name=\"Virology\" volume=\"319\" first=\"337\" last=\"342\">\n      <title>Analysis of " + c20Word(rng, c20AlNum[:26], 4, 9) + ".</title>\n      <authorList>\n        <person name=\"Chapman D.A.\"/>\n      </authorList>\n    </citation>\n    <scope>" + v + "</scope>\n  </reference>\n"}
+		}},
+}
+
+// c20EnumText lists the enumerations for the domain text.
+func c20EnumText() string {
+	var parts []string
+	for _, e := range c20Enums {
+		open := ""
+		if !e.schema {
+			open = ", not enumerated by the schema: the values UniProt writes"
+		}
+		parts = append(parts, fmt.Sprintf("%s in {%s} (class %s%s)", e.attr, strings.Join(e.values, ", "), e.shape, open))
+	}
+	return strings.Join(parts, "; ")
 }
 
 // c20WellFormed reads text with the standard tokenizer to its end.
@@ -1316,6 +1515,116 @@ func TestVerifC20(t *testing.T) {
 		rng = saved
 	}
 
+	// (9) both tiers: well-formed documents in the layout of the real dump whose
+	// entries carry the values that uniprot.xsd ENUMERATES for an attribute -
+	// every value of every enumeration of c20Enums once: one document of k = 3
+	// entries (dataset: k in {1, 2, 3, 9}, every position) of which ONE carries
+	// the value -, documents in which EVERY entry is a TrEMBL entry, and
+	// documents in which the datasets go Swiss-Prot / TrEMBL in turn (a dump
+	// that mixes reviewed and unreviewed entries) and every entry carries one
+	// further value drawn at random. All k entries must come out as from any
+	// other document. Every document is first read to its end with the
+	// standard tokenizer. Own stream, added last.
+	nEnum, nEnumAll, nEnumMixed := 0, 0, 0
+	{
+		saved := rng
+		rng = rand.New(rand.NewSource(seed ^ 0x20202020202020))
+		build := func(ents []c20Ent) c20Doc {
+			d := c20Build(rng, ents, true)
+			if err := c20WellFormed(d.text); err != nil {
+				t.Fatalf("generator: the standard tokenizer refuses a generated document: %v\n%s", err, d.text)
+			}
+			return d
+		}
+		newEnts := func(k int) []c20Ent {
+			ents := make([]c20Ent, k)
+			for i := range ents {
+				ents[i] = c20NewEnt(rng, 60)
+			}
+			return ents
+		}
+		gi := 0
+		for ei, en := range c20Enums {
+			for vi, val := range en.values {
+				type kj struct{ k, j int }
+				places := []kj{{3, []int{0, 1, 0, 1, 2}[gi%5]}}
+				if ei == 0 { // the dataset: every position of small documents
+					places = []kj{{1, 0}, {2, 0}, {2, 1}, {3, 0}, {3, 1}, {3, 2}, {9, 0}, {9, 4}, {9, 8}}
+				} else if thorough {
+					places = []kj{{1, 0}, {2, 1}, {3, 0}, {3, 1}, {3, 2}, {9, 4}}
+				}
+				for _, pl := range places {
+					ents := newEnts(pl.k)
+					a := en.gen(rng, val, len(ents[pl.j].Seq))
+					ents[pl.j].ann = &a
+					d := build(ents)
+					desc := fmt.Sprintf("entry %d of %d has %s = %q (value %d of the %d the schema lists); %s; the entry: %s", pl.j+1, pl.k, en.attr, val, vi+1, len(en.values), docDesc(d), strconv.Quote(c20Clip(string(d.text[d.start[pl.j]:d.end[pl.j]]), 900)))
+					if !en.schema {
+						desc = fmt.Sprintf("entry %d of %d has %s = %q; %s; the entry: %s", pl.j+1, pl.k, en.attr, val, docDesc(d), strconv.Quote(c20Clip(string(d.text[d.start[pl.j]:d.end[pl.j]]), 900)))
+					}
+					mode := (gi + pl.k + pl.j) % 2
+					addParse(d.text, mode, true, en.shape, d.ents, false, desc)
+					if (gi%3 == 0 || ei == 0) && pl.k == 3 {
+						addRead(c20Gzip(d.text), 1-mode, true, en.shape, d.ents, false, desc)
+					}
+					nEnum++
+				}
+				gi++
+			}
+		}
+		// every entry a TrEMBL entry (what uniprot_trembl.xml looks like)
+		for _, k := range []int{1, 2, 3, 9, 40} {
+			ents := newEnts(k)
+			for i := range ents {
+				ents[i].ann = &c20Annot{dataset: "TrEMBL"}
+			}
+			d := build(ents)
+			desc := fmt.Sprintf("every one of the %d entries has dataset=\"TrEMBL\"; %s", k, docDesc(d))
+			addParse(d.text, k%2, true, c20Enums[0].shape, d.ents, false, desc)
+			addRead(c20Gzip(d.text), 1-k%2, true, c20Enums[0].shape, d.ents, false, desc)
+			nEnumAll++
+		}
+		// datasets in turn, and one further enumerated value per entry
+		mixed := 6
+		if thorough {
+			mixed = 200
+		}
+		for m := 0; m < mixed; m++ {
+			k := []int{6, 40, 120}[m%3]
+			ents := newEnts(k)
+			shapes := make([]string, k)
+			var whats []string
+			for i := range ents {
+				en := c20Enums[1+rng.Intn(len(c20Enums)-1)]
+				val := en.values[rng.Intn(len(en.values))]
+				a := en.gen(rng, val, len(ents[i].Seq))
+				a.dataset = c20Enums[0].values[(i+m)%2]
+				if m%3 == 2 { // runs of three of a kind
+					a.dataset = c20Enums[0].values[(i/3+m)%2]
+				}
+				ents[i].ann, shapes[i] = &a, en.shape
+				if a.dataset == "TrEMBL" {
+					// all one-value documents are Swiss-Prot ones: what sets this entry
+					// apart from them is its dataset
+					shapes[i] = c20Enums[0].shape
+				}
+				if i < 6 {
+					whats = append(whats, fmt.Sprintf("entry %d: dataset %s, %s = %q", i+1, a.dataset, en.attr, val))
+				}
+			}
+			d := build(ents)
+			desc := "datasets Swiss-Prot and TrEMBL in turn and every entry with one further enumerated value drawn at random (" + strings.Join(whats, "; ") + map[bool]string{true: "; ..."}[k > 6] + "); " + docDesc(d)
+			addParse(d.text, m%2, true, "enumerated-values-mixed", d.ents, false, desc)
+			specs[len(specs)-1].shapes = shapes
+			if m%2 == 0 {
+				addRead(c20Gzip(d.text), 1-m%2, true, "enumerated-values-mixed", d.ents, false, desc)
+				specs[len(specs)-1].shapes = shapes
+			}
+			nEnumMixed++
+		}
+		rng = saved
+	}
+
 	// ------------------------------------------------------------ observe
 	queues := make([][]c20Case, workers)
 	// damaged cases (which may each cost a full deadline) are spread evenly
@@ -1351,13 +1660,15 @@ func TestVerifC20(t *testing.T) {
 			"<comment type=\"mass spectrometry\" mass=... method=... error=...> with a location and mass in %v (classes mass-with-fraction, mass-integral, mass-in-exponent-notation; mass is an xs:float); "+
 			"interaction comments with organismsDiffer true/false and experiments in {2, 3, 17, 128, 300} (interaction-comment); alternative products with two isoforms having <id>, <name> and an empty <sequence> element of their own (alternative-products-comment); biophysicochemical properties with absorption, kinetics, pH, redox and temperature texts (biophysicochemical-comment); catalytic activity with reaction and physiologicalReaction, cofactor (catalytic-activity-and-cofactor-comments); subcellular location, disease, online information (subcellular-location-and-disease-comments); "+
 			"sequence caution with a conflict holding <sequence resource=... version=\"1|2|12\"/> (sequence-caution-comment); features located by positions with a status attribute and without a number (feature-position-status); sequence variant and splice variant features with <original>/<variation> (variant-features); references with citation dates 2003, 2003-05, 2003-05-17, 1987-03, author lists, scopes, sources (reference-citation); dbReference elements with properties and molecule, proteinExistence (db-reference-and-protein-existence); precursor and fragment attributes on the entry's sequence element (sequence-precursor-fragment-attributes); "+
-			"plus %d documents of k in {5, 20, 60} entries in which EVERY entry carries one of these annotations drawn at random (class: that of the first entry that arrives wrong; annotated-entries-mixed if entries are only missing); all k entries with accessions, names and sequence text demanded as for any other document; non-trivial = k >= 1",
-			reps, nLarge, c20LargeVersions, c20LargeSeqVersions, c20LargeSeqLens, c20LargeEvidenceKeys, nDates, c20Dates, nAnnot, len(c20ListForms), c20MassValues(), nMixed))
+			"plus %d documents of k in {5, 20, 60} entries in which EVERY entry carries one of these annotations drawn at random (class: that of the first entry that arrives wrong; annotated-entries-mixed if entries are only missing); all k entries with accessions, names and sequence text demanded as for any other document; "+
+			"plus enumerated attribute values: %d documents in the layout of the real dump, each checked with the standard tokenizer beforehand, of k = 3 entries (thorough tier k in {1, 2, 3, 9}; for the dataset k in {1, 2, 3, 9} and every position in both tiers) of which ONE (first, middle or last in turn) carries one value of an attribute that uniprot.xsd restricts to an enumeration or types xs:boolean, EVERY value of every such attribute once: %s; "+
+			"plus %d documents of k in {1, 2, 3, 9, 40} entries that are ALL dataset=\"TrEMBL\" entries; plus %d documents of k in {6, 40, 120} entries whose datasets go Swiss-Prot, TrEMBL in turn (every third document: in runs of three) and in which every entry carries one further of these values drawn at random (class enumerated-values-mixed if entries are only missing, else that of the first entry that arrives wrong: its dataset class if it is a TrEMBL entry, else the class of its other value); a valid document whichever values it carries: all k entries with accessions, names and sequence text demanded as for any other document; non-trivial = k >= 1",
+			reps, nLarge, c20LargeVersions, c20LargeSeqVersions, c20LargeSeqLens, c20LargeEvidenceKeys, nDates, c20Dates, nAnnot, len(c20ListForms), c20MassValues(), nMixed, nEnum, c20EnumText(), nEnumAll, nEnumMixed))
 	vD := newVerifRun("C20", "io/uniprot.Parse/post/damaged-prefix", common+
 		fmt.Sprintf("%d small document(s) (<= 3 entries; compact, without XML declaration in the quick tier) cut at EVERY byte offset before the end of the root element (exhaustive, %s), and, in both tiers, one small document (2 entries, "+strconv.Itoa(len(prologDoc.text))+" bytes) that starts with an XML declaration, a newline, a comment '<!-- comment -->' and a newline before the <uniprot ...> root, also cut at EVERY byte offset, so that cuts inside and right after the declaration, inside and right after the comment, in the white space before the root and inside the root start tag are all covered (each must report >= 1 error and close both channels; class stem truncated-before-root); %d larger documents (2..200 entries) damaged in or before a chosen entry: mismatched end tag, '< ' or '& ' in text, byte 0x01, missing </entry>, unterminated start tag, '<<' between entries, cut at a random offset; plain through Parse (capacities 0..100), gzip-compressed through Read, and gzip files cut at a random offset (expected entries = those wholly inside what the standard decompressor recovers); demanded: expected entries first and in order, >= 1 error (on the channel, or returned by Read), both channels closed; non-trivial = every case",
 			len(small), map[bool]string{true: "both consumers", false: "consumers alternating"}[thorough], nBig))
 	vT := newVerifRun("C20", "io/uniprot.Parse/terminates", common+"every case of the clauses entries, damaged-prefix and gzip: the consumer returns (both channels seen closed) before the deadline; non-trivial = every case")
-	vG := newVerifRun("C20", "io/uniprot.Read/post/gzip", common+"well-formed documents (k = 0..3 and every 8th k up to 200) gzip-compressed into a temp file and read through Read (capacities fixed by Read at 100/100); same demands as the entries clause; plus every k = 3 document of the large-number part of the entries clause (entry version up to "+strconv.Itoa(c20LargeVersions[len(c20LargeVersions)-1])+", sequence version, sequence length and mass, feature positions, evidence key; same classes) and every k = 3 document with all three dates set of the date part of the entries clause (classes leap-day-date, calendar-edge-date); plus every third k = 3 document of the annotation part of the entries clause (evidence lists in all white-space forms, mass spectrometry and the other comment kinds, typed attributes; same classes) and every fourth document of its mixed part; "+
+	vG := newVerifRun("C20", "io/uniprot.Read/post/gzip", common+"well-formed documents (k = 0..3 and every 8th k up to 200) gzip-compressed into a temp file and read through Read (capacities fixed by Read at 100/100); same demands as the entries clause; plus every k = 3 document of the large-number part of the entries clause (entry version up to "+strconv.Itoa(c20LargeVersions[len(c20LargeVersions)-1])+", sequence version, sequence length and mass, feature positions, evidence key; same classes) and every k = 3 document with all three dates set of the date part of the entries clause (classes leap-day-date, calendar-edge-date); plus every third k = 3 document of the annotation part of the entries clause (evidence lists in all white-space forms, mass spectrometry and the other comment kinds, typed attributes; same classes) and every fourth document of its mixed part; plus of the enumerated-value part of the entries clause every k = 3 dataset document, every third k = 3 document of the other attributes, every all-TrEMBL document and every second document with the datasets in turn (same classes); "+
 		fmt.Sprintf("plus %d gzip files made of SEVERAL members (RFC 1952: a gzip file is a series of members and stands for the concatenation of their contents; pigz, bgzip and concatenated .gz parts look like this): well-formed documents of k in %s entries, the XML text split at byte positions and each piece written by its own gzip.Writer, the outputs concatenated: 2 members with the boundary after the first byte, inside the root start tag, right before an entry, right after entry 1, inside an entry; 4 members (before the first entry, after the last entry, before the last byte); 2..6 members at random byte offsets (two files per k); some with an additional member that holds no data at a random place; each file is first checked with the standard decompressor to stand for the document; all k entries demanded in order, both channels closed (class multi-member-gzip); ", nMulti, map[bool]string{true: "{1, 2, 3, 4, 5, 9, 20, 40, 100, 200}", false: "{1, 2, 3, 9, 40}"}[thorough])+
 		"non-trivial = k >= 1")
 	for _, v := range []*verifRun{vE, vD, vT, vG} {
